@@ -182,7 +182,12 @@ fn main() {
         "coldstart" => {
             let threads: usize = args.get(2).and_then(|s| s.parse().ok()).unwrap_or(16);
             let seed: u64 = args.get(3).and_then(|s| s.parse().ok()).unwrap_or(1);
-            std::process::exit(mon::c07::coldstart(threads, seed));
+            let kind = args.get(4).cloned().unwrap_or_else(|| "prayer".into());
+            let stack_kib: usize = args.get(5).and_then(|s| s.parse().ok()).unwrap_or(0);
+            if kind == "prayer" {
+                std::process::exit(mon::c07::coldstart(threads, seed));
+            }
+            std::process::exit(mon::c07::coldstart_other(&kind, threads, seed, stack_kib));
         }
         "hijri-newyears" => {
             std::process::exit(mon::c19::hijri_newyears(&args[2]));
